@@ -9,7 +9,7 @@
        grid_old_refuted     rate 9/5 (not representable): b64 (3 / b64 (9/5)) < grid_time (9/5) 3  — the defect repaired in round 4
        grid_reciprocal_refuted   rate 3 (representable): b64 (5 * b64 (1 / 3)) < grid_time 3 5 — two roundings (seed C20-5)
    Real-number axioms of the standard library appear under Print Assumptions (as for the other BINARY64 theorems). *)
-From Coq Require Import ZArith QArith Qround Qabs Qreals Reals Lra Lia List.
+From Coq Require Import ZArith QArith Qround Qabs Qreals Reals Lra Lia List Bool.
 From Flocq Require Import Core.
 Require Import QV.C20.Model QV.C20.ProofsFloat.
 Open Scope R_scope.
@@ -225,4 +225,90 @@ Theorem conv64_within_tolerance sr (w : Q * Q) :
   valid_conv_tol sr w (conv64 sr w) = true.
 Proof.
   intros [B0 B1] [L0 L1]. unfold conv64. apply conv_tol_from_close; apply b64_close; assumption.
+Qed.
+
+(* ---- which side of an edge: the grid is monotone, and strictly so below 2^52 samples; a jump placed at the rational time
+   j / rate (stored in a table as edge = b64 (j / rate)) has sample k at or after it exactly when k >= j ---- *)
+Lemma rate_nonzero rate : (0 < rate)%Q -> ~ (rate == 0)%Q.
+Proof. intros H E. rewrite E in H. discriminate H. Qed.
+
+Theorem grid_time_monotone rate k j : (0 < rate)%Q -> (k <= j)%Z -> (grid_time rate k <= grid_time rate j)%Q.
+Proof.
+  intros Hr Hkj. apply Rle_Qle. rewrite !grid_time_is_RN by (apply rate_nonzero; exact Hr). apply RN_le.
+  apply Qlt_Rlt in Hr. rewrite Q2R_0 in Hr. unfold Rdiv. apply Rmult_le_compat_r; [left; apply Rinv_0_lt_compat; exact Hr|].
+  apply IZR_le. exact Hkj.
+Qed.
+
+Theorem grid_time_strict rate k j : (0 < rate)%Q -> (0 <= k < j)%Z -> (j < 2 ^ 52)%Z ->
+  bpow radix2 (-1022) <= IZR j / Q2R rate -> (grid_time rate k < grid_time rate j)%Q.
+Proof.
+  intros Hr Hk Hj Hy. apply Rlt_Qlt. rewrite !grid_time_is_RN by (apply rate_nonzero; exact Hr).
+  apply Qlt_Rlt in Hr. rewrite Q2R_0 in Hr. set (r := Q2R rate) in *.
+  assert (Hir : 0 < / r) by (apply Rinv_0_lt_compat; exact Hr).
+  set (x := IZR k / r). set (y := IZR j / r) in *.
+  assert (Hk0 : 0 <= IZR k) by (apply IZR_le; lia).
+  assert (Hx0 : 0 <= x) by (unfold x, Rdiv; apply Rmult_le_pos; lra).
+  assert (Hd : / r <= y - x).
+  { unfold x, y, Rdiv. rewrite <- Rmult_minus_distr_r, <- minus_IZR.
+    rewrite <- (Rmult_1_l (/ r)) at 1. apply Rmult_le_compat_r; [lra|]. apply IZR_le. lia. }
+  assert (Hxy : x <= y) by lra.
+  assert (Hy0 : 0 < y) by (eapply Rlt_le_trans; [apply (bpow_gt_0 radix2 (-1022))|exact Hy]).
+  pose proof (RN_err x y ltac:(rewrite Rabs_pos_eq; lra) Hy) as A.
+  pose proof (RN_err y y ltac:(rewrite Rabs_pos_eq; lra) Hy) as B.
+  apply Rabs_le_inv in A, B.
+  destruct (Rlt_or_le (RN x) (RN y)) as [L|L]; [exact L|exfalso].
+  assert (D : / r <= 2 * y * u53) by lra.
+  replace (2 * y * u53) with (/ r * (2 * IZR j * u53)) in D by (unfold y, Rdiv; ring).
+  rewrite <- (Rmult_1_r (/ r)) in D at 1. apply Rmult_le_reg_l in D; [|exact Hir].
+  rewrite u53_val in D.
+  assert (Hj' : IZR j <= 4503599627370495) by (apply IZR_le; change (2 ^ 52)%Z with 4503599627370496%Z in Hj; lia).
+  lra.
+Qed.
+
+(* a jump placed at the rational time j / rate is stored in a table at edge = b64 (j / rate); sample k lies at or after the
+   edge exactly when k >= j *)
+Theorem grid_edge_side rate j k : (0 < rate)%Q -> (0 <= k)%Z -> (0 <= j < 2 ^ 52)%Z ->
+  bpow radix2 (-1022) <= IZR j / Q2R rate ->
+  ((b64 (inject_Z j / rate) <= grid_time rate k)%Q <-> (j <= k)%Z).
+Proof.
+  intros Hr Hk Hj Hy. change (b64 (inject_Z j / rate)) with (grid_time rate j). split.
+  - intro H. destruct (Z_lt_le_dec k j) as [L|L]; [exfalso|exact L].
+    pose proof (grid_time_strict rate k j Hr ltac:(lia) ltac:(lia) Hy) as S.
+    apply Qle_not_lt in H. apply H. exact S.
+  - intro H. apply grid_time_monotone; assumption.
+Qed.
+
+(* ---- the model of get_sample_times meets the specification spec_times (lengths: ProofsTimes, exact; grid: above) ---- *)
+Require Import QV.common.Util QV.C20.ProofsTimes.
+Import ListNotations.
+Lemma grid_forallb rate n m s : grid_guard rate n = true -> (Z.of_nat (s + m) <= n)%Z ->
+  forallb (fun p : nat * Q => Qeq_bool (snd p) (grid_time rate (Z.of_nat (fst p))))
+          (combine (seq s m) (map (grid_impl rate n) (map Z.of_nat (seq s m)))) = true.
+Proof.
+  revert s. induction m as [|m IH]; intros s G H; cbn [seq map combine forallb]; [reflexivity|].
+  apply andb_true_intro. split.
+  - cbn [fst snd]. apply Qeq_bool_iff. apply grid_impl_correct; [lia|exact G].
+  - apply IH; [exact G|lia].
+Qed.
+
+Lemma fold_max_nonneg l : (0 <= fold_right Z.max 0 l)%Z.
+Proof. induction l; cbn; lia. Qed.
+
+Theorem sample_times_meets_spec rate durs :
+  match sample_times rate durs with ORet (_, lens) => grid_guard rate (fold_right Z.max 0%Z lens) | OErr => true end = true ->
+  spec_times rate durs (sample_times rate durs) = true.
+Proof.
+  destruct durs as [|d ds]; [reflexivity|]. unfold spec_times, sample_times.
+  pose proof (all_ok_lengths rate (d :: ds)) as A.
+  destruct (all_ok (map (waveform_length rate) (d :: ds))) as [lens|].
+  - destruct A as (A & B & C). intro G. rewrite A. set (n := fold_right Z.max 0%Z lens) in *.
+    pose proof (fold_max_nonneg lens) as Hn. fold n in Hn.
+    assert (L : length (map (grid_impl rate n) (zrange n)) = Z.to_nat n).
+    { unfold zrange. rewrite !map_length, seq_length. reflexivity. }
+    rewrite L. apply andb_true_intro. split; [apply andb_true_intro; split; [apply andb_true_intro; split|]|].
+    + apply Nat.eqb_eq. exact B.
+    + exact C.
+    + apply Z.eqb_eq. lia.
+    + unfold zrange. apply grid_forallb; [exact G|lia].
+  - intros _. rewrite A. reflexivity.
 Qed.
